@@ -181,8 +181,11 @@ def pred_true_set(ctx, fn, cs, depth=0, c_param=1):
 
 def validating_function(ctx):
     """the unique non-derived function that constructs NormalizedString (role, not name)"""
+    # (a helper that a refactoring extracted and that was spliced back into every caller - say a
+    # `finish(self) -> NormalizedString` of a private builder - is seen in its callers)
+    absorbed = ctx.fb.absorbed()
     sites = util.aggregates(ctx.fb, NS)
-    fns = sorted({b.path for b, _, _, _ in sites})
+    fns = sorted({b.path for b, _, _, _ in sites if b.path not in absorbed})
     return fns[0] if len(fns) == 1 else None
 
 
@@ -203,10 +206,10 @@ def check(ctx, rep):
         pass
     elif len(loops) != 1:
         rep.violation("length-gate", INNER_FN, "shape", "expected one loop over the characters, found %d" % len(loops), body.loc())
-        return
     else:
-        if check_loop(ctx, rep, INNER_FN, se, pr, loops[0]) is False:
-            return
+        check_loop(ctx, rep, INNER_FN, se, pr, loops[0])
+    # the constructors, the view and the derives are decided whatever became of the loop rules
+    # (other properties re-file them)
     check_tail(ctx, rep, INNER_FN)
 
 
@@ -375,6 +378,37 @@ def check_loop(ctx, rep, INNER_FN, se, pr, lp):
                 mode = "zip"
                 c_term = ("field", item, 1)
                 slot_term = ("field", item, 0)
+        elif util.is_call(x, "core::str::<impl str>::chars") and strip(x[2][0]) == ("param", 1):
+            # `for c in s.chars()` with the position kept in a counter of its own (a local, or a
+            # field of a private builder): it starts at 0 and goes up by one on the way round the
+            # loop, so at iteration k it is k - position k of the text goes to position k
+            from rules import algos
+            head = lp["next_bb"]
+            for key, (init_v, step_v) in algos.loop_state(se, head).items():
+                ph = algos.phi_of(se, head, key)
+                iv, sv = strip(init_v), strip(step_v)
+                cands = []
+                if iv[:2] == ("int", 0) and key[0] == "local":
+                    cands.append((ph, sv))
+                if iv[0] == "agg" and iv[1] == "adt":
+                    # struct state: fields updated by an `upd` chain
+                    fld_upd = {}
+                    t_ = sv
+                    while t_[0] == "upd" and t_[2][0] == "f":
+                        fld_upd.setdefault(t_[2][1], t_[3])
+                        t_ = t_[1]
+                    if t_ == ph:
+                        for g, o in enumerate(iv[4]):
+                            if strip(o)[:2] == ("int", 0) and g in fld_upd:
+                                cands.append((("field", ph, g), strip(fld_upd[g])))
+                for ct, st_ in cands:
+                    n_ = util.numnorm(st_)
+                    if n_[0] == "field" and n_[2] == 0 and n_[1][0] == "binop" and n_[1][1] == "AddWithOverflow":
+                        n_ = ("binop", "Add", n_[1][2], n_[1][3])
+                    if n_ == ("binop", "Add", util.numnorm(ct), ("int", 1, n_[3][2] if n_[0] == "binop" and len(n_[3]) > 2 else "u8")) or (n_[0] == "binop" and n_[1] == "Add" and n_[2] == util.numnorm(ct) and n_[3][:2] == ("int", 1)):
+                        mode = "counter"
+                        c_term = item
+                        i_term = ct
     rep.check(mode is not None, "first-offender", INNER_FN, "chars-in-order", "characters are visited by s.chars() in order, position k of the text goes to position k of the array (%s), early return on the first offender" % mode, "characters are not traversed by s.chars().enumerate() / array.iter_mut().zip(s.chars()) in order", body.loc(lp["next_bb"]))
     if mode is None:
         return False
@@ -382,6 +416,8 @@ def check_loop(ctx, rep, INNER_FN, se, pr, lp):
     store_blocks = {}
     for (bi, si), (loc, v) in se.assigns.items():
         if mode == "enumerate" and loc[0] == "index" and loc[1][0] == "local":
+            store_blocks[bi] = (loc, v)
+        if mode == "counter" and loc[0] == "index" and (loc[1][0] == "local" or (loc[1][0] == "field" and loc[1][1][0] == "local")):
             store_blocks[bi] = (loc, v)
         if mode == "zip" and loc[0] == "deref" and strip(loc[1]) == slot_term:
             store_blocks[bi] = (loc, v)
@@ -464,6 +500,11 @@ def check_loop(ctx, rep, INNER_FN, se, pr, lp):
     if len(store_blocks) == 1:
         loc, v = next(iter(store_blocks.values()))
         idx_ok = True if mode == "zip" else strip(loc[2]) == i_term
+        if mode == "counter":
+            ix = util.numnorm(loc[2])
+            while ix[0] == "cast" or (util.is_call(ix) and "From<u8> for usize" in ix[1] and len(ix[2]) == 1):
+                ix = util.numnorm(ix[2] if ix[0] == "cast" else ix[2][0])
+            idx_ok = ix == util.numnorm(i_term)
         v = strip(v)
         # to_ascii_uppercase(c) as u8   or   (c as u8).to_ascii_uppercase()  (equal on the ASCII accept set)
         f1 = v[0] == "cast" and v[1] == "IntToInt" and v[3] == "u8" and util.is_call(v[2], "std::char::methods::<impl char>::to_ascii_uppercase") and v[2][2][0] == c_term
@@ -473,7 +514,7 @@ def check_loop(ctx, rep, INNER_FN, se, pr, lp):
     rep.check(good, "normal-form", INNER_FN, "stored-byte", "array[position] = ASCII upper case of c", "stored byte is not the ASCII upper case of the character at its position: " + desc, body.loc())
     oks = [(bi, si) for bi, si, s in util.blocks_constructing(body, NS)]
     good = False
-    if len(oks) == 1:
+    if oks and len({se.assigns[o][1] for o in oks}) == 1:
         loc, v = se.assigns[oks[0]]
         tys = [fb.ty(f["ty"]).k for f in fb.adt_fields(NS)]
         arr_v = [x for x, t in zip(v[4], tys) if t == "array"]
@@ -483,7 +524,11 @@ def check_loop(ctx, rep, INNER_FN, se, pr, lp):
         if ln is not None and not len_ok:
             x = strip(len_v[0])
             len_ok = x[0] == "cast" and util.is_call(x[2], "std::iter::Iterator::count") and util.is_call(x[2][2][0], "core::str::<impl str>::chars")
-        arr_ok = bool(arr_v) and arr_v[0][0] in ("phi", "upd", "repeat", "after")
+        if ln is not None and not len_ok and mode == "counter":
+            # the counter itself: one more per character stored, every stored character is ASCII
+            # (one byte each), so at the end it is the byte length of the text
+            len_ok = util.numnorm(len_v[0]) == util.numnorm(i_term) and accept == ACCEPT and len(store_blocks) == 1
+        arr_ok = bool(arr_v) and (arr_v[0][0] in ("phi", "upd", "repeat", "after") or (arr_v[0][0] == "field" and arr_v[0][1][0] == "phi"))
         good = len_ok and arr_ok
     rep.check(good, "normal-form", INNER_FN, "length-field", "length = byte length (<= 16, fits u8), s = the filled array", "the length stored is not the byte length of the input", body.loc())
     zero_init = any(v[0] == "repeat" and v[1][:2] == ("int", 0) and v[2] == MAXLEN for (bi, si), (loc, v) in se.assigns.items())
@@ -556,7 +601,8 @@ def check_tail(ctx, rep, INNER_FN):
     rep.check(good, "view", DF, "display", "Display writes as_ref()", "Display does not write the normalised text")
     # ------------------------------------------------------------ who may construct
     sites = util.aggregates(fb, NS)
-    bad = [b.path for b, _, _, _ in sites if b.path != INNER]
+    absorbed = fb.absorbed()
+    bad = [b.path for b, _, _, _ in sites if b.path != INNER and b.path not in absorbed]
     rep.check(bool(sites) and not bad, "who-may-construct", NS, "aggregate", "constructed only by the validating function", "NormalizedString is also constructed in %s" % bad)
     pubf = [f["name"] for f in fb.adt_fields(NS) if f["pub"]]
     rep.check(not pubf, "who-may-construct", NS, "private-fields", "fields private", "public fields %s" % pubf)
